@@ -81,6 +81,7 @@ DEFAULTS = {
     "receiveReturnRole": "decrypted",
     "fetchDecryptIdRole": "id", "fetchNonceRole": "record", "fetchDataRole": "record",
     "receiveCombineFailure": "nullopt", "fetchCombineFailure": "nullopt", "cliCombineFailure": "throw",
+    "ingestGuard": "held-key", "announceGuard": "held-key",
     "cliSteps": ["validate", "combine", "decrypt", "digest", "compare", "return"],
     "cliHashRole": "decrypted", "cliCompareRole": "digest!=manifest.chunk_hash", "cliDecryptIdArg": "manifest.chunk_id",
     "cliDecryptNonceArg": "manifest.nonce", "cliCombineThresholdArg": "manifest.threshold", "cliReturnRole": "decrypted",
@@ -100,6 +101,9 @@ DOCS = {
                        "parameter), the guard before the effects, the id / nonce / threshold expressions, what is stored and returned",
     "fetchDecryptIdRole": "`Node::fetch_chunk`: chunk-id argument of decrypt_with_key (\"id\" = the parameter), nonce / data source (\"record\")",
     "cliSteps": "main.cpp `decrypt_chunk_with_manifest`: recognised statements in source order, and the same roles",
+    "ingestGuard": "`ingest_manifest` / `handle_announce`: \"held-key\" = the manifest replaces cache and key shares only if "
+                   "`manifest_keeps_held_chunk_readable` (same content hash as the cached manifest and same reconstructed key as the shares "
+                   "`fetch_chunk` reads a held chunk with), \"none\" = unconditionally (the tree before fixes/C11-ingest-must-not-poison-held-chunk.patch)",
     "receiveCombineFailure": "what happens when `Shamir::combine` throws: \"nullopt\" = caught and turned into `return std::nullopt`, "
                              "\"throw\" = the exception leaves the function (not pinned by any theorem: both mean 'not accepted')",
 }
@@ -331,6 +335,28 @@ def extract_tables() -> tuple[dict, list[str]]:
         body, params = _body_and_params(main, r"std::optional<ephemeralnet::ChunkData>\s+decrypt_chunk_with_manifest")
         _verify_like(body, params[1], [params[1] + ".data"], "cli", vals, False)
 
+    def guards():
+        helper = re.search(r"bool\s+Node::manifest_keeps_held_chunk_readable\s*\(", node)
+        sound = False
+        if helper:
+            hbody, _ = _body_and_params(node, r"bool\s+Node::manifest_keeps_held_chunk_readable")
+            sound = bool(re.search(r"chunk_hash\s*!=\s*manifest\.chunk_hash\s*\)\s*\{\s*return\s+false", hbody)) and \
+                bool(re.search(r"return\s+reconstruct\(\s*current\s*,\s*current_threshold\s*\)\s*==\s*reconstruct\(\s*manifest\.shards\s*,\s*manifest\.threshold\s*\)", hbody)) and \
+                bool(re.search(r"catch\s*\([^)]*\)\s*\{\s*return\s+false", hbody))
+        ibody, _ = _body_and_params(node, r"bool\s+Node::ingest_manifest")
+        abody, _ = _body_and_params(node, r"void\s+Node::handle_announce")
+        ig = re.search(r"if\s*\(\s*!\s*manifest_keeps_held_chunk_readable\s*\(\s*manifest\s*\)\s*\)\s*\{\s*return\s+false\s*;", ibody)
+        ipos = ibody.find("manifest_cache_[")
+        am = re.search(r"const\s+bool\s+(\w+)\s*=\s*manifest_keeps_held_chunk_readable\s*\(\s*manifest\s*\)\s*;", abody)
+        ag = am and re.search(r"if\s*\(\s*" + re.escape(am.group(1)) + r"\s*\)\s*\{[^{}]*manifest_cache_\s*\[[^{}]*publish_shards[^{}]*\}", abody, flags=re.S)
+        unguarded_a = len(re.findall(r"manifest_cache_\s*\[", abody)) != (1 if ag else 0) + (0 if ag else 1)
+        if helper and not sound:
+            vals["ingestGuard"] = vals["announceGuard"] = "other:helper"
+            return
+        vals["ingestGuard"] = "held-key" if (helper and ig and ig.start() < ipos) else "none"
+        vals["announceGuard"] = "held-key" if (helper and ag and not unguarded_a) else "none"
+
+    attempt(f"ingest_manifest / handle_announce ({NODE})", guards)
     attempt(f"store_chunk ({NODE})", store)
     attempt(f"receive_chunk ({NODE})", receive)
     attempt(f"fetch_chunk ({NODE})", fetch)
